@@ -377,6 +377,39 @@ def rule_one_memtable_per_segment(cx):
                  "segment and the next recovery skips it -- acknowledged commits are lost")
 
 
+def rule_writer_open_ignores_content(cx):
+    """The WAL writer is opened on an existing segment before the replay/repair step has run (CoreInner::new) and again
+    afterwards.  Whatever opening a writer reads from the segment (the compression-type probe) must not turn damaged
+    CONTENT into an error: judging content is the job of replay, which repairs in the tolerant mode and fails in the strict
+    one.  Decided: in the functions Wal::create_writer reaches, the result of decoding a byte of the file
+    (RecordType::from_u8 / CompressionType::from_u8) is never propagated."""
+    f = cx.f
+    cw = f.body("Wal::create_writer")
+    n = 0
+    seen = set()
+    work = [cw]
+    while work:
+        b = work.pop()
+        if b.id in seen:
+            continue
+        seen.add(b.id)
+        for c in b.calls:
+            if c.bb not in b.live:
+                continue
+            if c.names & {"wal::RecordType::from_u8", "RecordType::from_u8", "wal::CompressionType::from_u8", "CompressionType::from_u8"}:
+                n += 1
+                fate = result_fate(b, c)
+                cx.check(fate not in ("propagated", "panics"), "`%s`: an undecodable %s byte is not an error of opening the writer (%s)" % (b.id, c.primary.split("::")[-2], fate),
+                         "writer-open-fails-on-content|%s|%s" % (b.name, c.primary.split("::")[-2]), c.where(),
+                         "`%s` propagates the error of decoding a byte read from the segment: one damaged byte in the first record makes Tree::new fail before the replay/repair "
+                         "step runs, also in TolerateCorruptedWithRepair mode" % b.id)
+            for t in c.targets:
+                cid = f.canon_to_id.get(t)
+                if cid and f.bodies[cid].file.endswith("wal/manager.rs") and cid not in seen:
+                    work.append(f.bodies[cid])
+    cx.floor("content decodes reachable from Wal::create_writer", n, 1)
+
+
 def rule_rotation_seals_segment(cx):
     """Recovery repairs a damaged segment and then replays the segments after it; that is prefix-consistent only if a
     non-final segment can never be torn by a crash, i.e. rotation makes the outgoing segment durable (flush + fsync)
